@@ -265,6 +265,16 @@ theorem text_roundtrip_byte_decimal (cfg : PCfg) (f : Nat) (n : Nat) :
     parseStmts cfg (f + 2) (".byte ".toList ++ Nat.toDigits 10 n) = .ok [.data 1 [.num n]] :=
   parseStmts_byte_decimal cfg f n
 
+/-- round trip for a fragment of the statement language (labels, `.org N`, `.memzone Z`, `.byte N`
+    with decimal numbers): whatever the renderer `renderSimple` writes for a statement, the front end
+    reads back as exactly that statement - for every name, zone and number -/
+theorem text_roundtrip_simple_statements (cfg : PCfg) (f : Nat) (s : Stmt) (txt : List Char)
+    (h : renderSimple s = some txt) : parseStmts cfg (f + 2) txt = .ok [s] :=
+  parse_renderSimple cfg f s txt h
+
+example : renderSimple (.org (.num 4096) none) = some ".org 4096".toList := by decide
+example : renderSimple (.data 1 [.num 255]) = some ".byte 255".toList := by decide
+
 -- the hypotheses are satisfiable: `LDI a,5 Nop` under the mnemonics `ldi`, `nop`
 def exCfg : PCfg := { regs := ["a"], mnemonics := ["ldi", "nop"] }
 example : cutAtMnemonic exCfg none false " a,5 ".toList = (" a,5 ".toList, []) := by
